@@ -17,7 +17,8 @@ import (
 type Cfg struct {
 	N          int      `json:"n"`
 	Dealer     int      `json:"dealer"`
-	DeadSB     bool     `json:"dead_sb,omitempty"`
+	DeadSB     bool     `json:"dead_sb,omitempty"`    // the seat after the dealer holds no position (as in Test_Actions_EmptySB_*)
+	NoSBSeat   bool     `json:"no_sb_seat,omitempty"` // nobody holds the small blind: the big blind sits right after the dealer
 	Ante       int64    `json:"ante"`
 	SB         int64    `json:"sb"`
 	BB         int64    `json:"bb"`
@@ -35,6 +36,17 @@ type Cfg struct {
 // Positions exactly as table/internal.go derives them from the seat manager.
 func (c *Cfg) Positions(i int) []string {
 	rel := (i - c.Dealer + c.N) % c.N
+	if c.NoSBSeat {
+		switch rel {
+		case 0:
+			return []string{"dealer"}
+		case 1:
+			return []string{"bb"}
+		case 2:
+			return []string{"ug"}
+		}
+		return []string{}
+	}
 	if c.N == 2 {
 		if rel == 0 {
 			return []string{"dealer", "sb"}
@@ -73,7 +85,7 @@ func (c *Cfg) Options() *pf.GameOptions {
 }
 
 func (c *Cfg) Short() string {
-	return fmt.Sprintf("n=%d dealer=%d deadSB=%v ante=%d sb=%d bb=%d db=%d limit=%s deck=%d hole=%d/%d bank=%v", c.N, c.Dealer, c.DeadSB, c.Ante, c.SB, c.BB, c.DB, c.Limit, len(c.Deck), c.Hole, c.Req, c.Bank)
+	return fmt.Sprintf("n=%d dealer=%d deadSB=%v/%v ante=%d sb=%d bb=%d db=%d limit=%s deck=%d hole=%d/%d bank=%v", c.N, c.Dealer, c.DeadSB, c.NoSBSeat, c.Ante, c.SB, c.BB, c.DB, c.Limit, len(c.Deck), c.Hole, c.Req, c.Bank)
 }
 
 func (c *Cfg) seatOf(pos string) int {
@@ -119,8 +131,15 @@ func GenCfg(rt *rapid.T, pr Profile) *Cfg {
 		c.N = rapid.IntRange(2, maxN).Draw(rt, "n")
 	}
 	c.Hole, c.Req = 2, 0
-	if rapid.IntRange(0, 4).Draw(rt, "omaha") == 0 {
+	switch rapid.IntRange(0, 19).Draw(rt, "variant") {
+	case 0, 1, 2, 3:
 		c.Hole, c.Req = 4, 2
+	case 4:
+		// other hole-card / required-hole-card combinations that can make a
+		// five-card hand on the flop (required = 0 or 2..hole; one required hole
+		// card would need four board cards)
+		hr := [][2]int{{2, 2}, {3, 0}, {3, 2}, {4, 0}, {4, 3}, {5, 2}, {3, 3}, {5, 0}}[rapid.IntRange(0, 7).Draw(rt, "otherVariant")]
+		c.Hole, c.Req = hr[0], hr[1]
 	}
 	c.ShortDeck = rapid.IntRange(0, 3).Draw(rt, "shortDeck") == 0
 	c.ShortTable = c.ShortDeck
@@ -139,7 +158,12 @@ func GenCfg(rt *rapid.T, pr Profile) *Cfg {
 	} else {
 		c.Dealer = rapid.IntRange(0, c.N-1).Draw(rt, "dealer")
 	}
-	c.DeadSB = c.N > 2 && rapid.IntRange(0, 5).Draw(rt, "deadSB") == 0
+	switch rapid.IntRange(0, 11).Draw(rt, "sbLayout") {
+	case 0, 1:
+		c.DeadSB = c.N > 2
+	case 2:
+		c.NoSBSeat = true
+	}
 	c.BB = pickI64(rt, "bb", 1, 2, 5, 10, 20, 100)
 	// any sizes are accepted; the usual half big blind is the most frequent
 	c.SB = pickI64(rt, "sb", 0, c.BB/2, c.BB/2, c.BB/2, c.BB/2, c.BB, 1, c.BB-1, c.BB/2+1, c.BB+1, 2*c.BB)
